@@ -281,6 +281,21 @@ func (e *Exec) sendCount(st *State) string {
 	return e.initMem["ghost|"+key]
 }
 
+// selRecvCount: receives performed by the chosen case of a select, per channel (selrecvd(ch)).
+func (e *Exec) selRecvCount(st *State) string {
+	key := "selrecv_count"
+	if _, ok := e.ghostTypes[key]; !ok {
+		e.memSort["ghost|"+key] = fmt.Sprintf("(Array Int %s)", e.sc.idx())
+		e.initMem["ghost|"+key] = e.sc.define("g0."+key, e.memSort["ghost|"+key], fmt.Sprintf("((as const (Array Int %s)) %s)", e.sc.idx(), e.sc.idxLit(0)))
+		e.ghostTypes[key] = types.NewArray(tInt, 1)
+		e.rawGhost[key] = true
+	}
+	if v, ok := st.mem["ghost|"+key]; ok {
+		return v
+	}
+	return e.initMem["ghost|"+key]
+}
+
 // closeCount: ghost counter of close(ch) per channel, readable in contracts as closed(ch).
 func (e *Exec) closeCount(st *State) string {
 	key := "close_count"
